@@ -38,7 +38,7 @@ def strategy_case(draw):
     dt = draw(st.sampled_from(gen.DTYPES_ALL))
     source = draw(st.sampled_from(["torch", "numpy"]))
     case = {"family": fam, "dt": dt, "source": source, "seed": draw(gen.SEED),
-            "scale_exp": draw(st.sampled_from([0, 0, 0, -6, -3, 3, 6]))}
+            "scale_exp": draw(st.sampled_from([0, 0, 0, -6, -3, 3, 6, -20, 20]))}
     if fam == "c":
         sp = draw(st.sampled_from(SPECTRA))
         n = len(sp)
@@ -170,6 +170,8 @@ def build_input(case):
                 A = torch.full(shp, 2.0, dtype=wd)
             ub = [1] * (d + 1)
         present = case["present"]
+    if abs(case.get("scale_exp", 0)) == 20 and dt in ("f32", "c64"):
+        case = dict(case, scale_exp=case["scale_exp"] // 5)       # keep float32 data inside its exponent range
     if case.get("scale_exp", 0) and fam != "c":
         A = A * (10.0 ** case["scale_exp"])
     A = A.to(DT[dt])            # the actual input, in the input dtype
